@@ -102,20 +102,41 @@ def rha0 (d : Dec) : Dec :=
 inductive Parsed
   | ok (d : Dec)
   | bad          -- `from_str` returns `Err`
-  | unmodelled   -- > 28 fractional digits or a 97-bit mantissa after the point: the crate
-                 -- rounds and stops validating the rest of the string; outside the model
+  | unmodelled   -- (no longer produced: the rounding branch of the crate is modelled below)
   deriving Repr, DecidableEq
+
+/-- `maybe_round` of rust_decimal 1.29: reached when a 29th fractional digit follows, or when one
+    more fractional digit would push the mantissa past 96 bits.  The next byte decides the
+    rounding (a digit ≥ 5 rounds up; `_`, and a second `.`, count as 0; anything else is an
+    error) and **the rest of the string is not looked at**.  If rounding up overflows 96 bits
+    the last kept digit is dropped (with the crate's `+4` then `/10`). -/
+def roundDigit (next : Char) (point : Bool) : Option Nat :=
+  if next.isDigit then some (next.toNat - 48)
+  else if next = '_' then some 0
+  else if next = '.' && point then some 0
+  else none
+
+def maybeRound (m s : Nat) (next : Char) (point neg : Bool) : Parsed :=
+  match roundDigit next point with
+  | none => .bad
+  | some d =>
+    let m1 := if d ≥ 5 then m + 1 else m
+    if m1 ≥ LIM then
+      (if s = 0 then .bad else .ok ⟨neg, (m1 + 4) / 10, s - 1⟩)
+    else .ok ⟨neg && m1 != 0, m1, s⟩
 
 def parseGo : List Char → Nat → Nat → Bool → Bool → Bool → Parsed
   | [], m, s, _, has, neg => if has then .ok ⟨neg && m != 0, m, s⟩ else .bad
   | c :: rest, m, s, point, has, neg =>
     if c.isDigit then
       let m' := m * 10 + (c.toNat - 48)
-      if m' ≥ LIM then (if point then .unmodelled else .bad)
+      if m' ≥ LIM then (if point then maybeRound m s c point neg else .bad)
       else
         let s' := if point then s + 1 else 0
-        if point && decide (s' ≥ 28) && !rest.isEmpty then .unmodelled
-        else parseGo rest m' s' point true neg
+        match rest with
+        | nxt :: _ => if point && decide (s' ≥ 28) then maybeRound m' s' nxt point neg
+                      else parseGo rest m' s' point true neg
+        | [] => parseGo rest m' s' point true neg
     else if c = '.' then (if point then .bad else parseGo rest m s true has neg)
     else if c = '_' then (if has then parseGo rest m s point true neg else .bad)
     else .bad
